@@ -85,7 +85,11 @@ def gen():
             if not ok: continue
             d = subprocess.check_output(['git', '-C', wt, 'diff'])
             open(os.path.join(OUT, name + '.diff'), 'wb').write(d)
-        json.dump({n: p for n, p, _ in M}, open(os.path.join(OUT, 'expected.json'), 'w'), indent=1)
+        exp = {}
+        ep = os.path.join(OUT, 'expected.json')
+        if os.path.exists(ep): exp = json.load(open(ep))   # keeps entries that were imported rather than generated (B-R*: refactorings written by sub-agents)
+        exp.update({n: p for n, p, _ in M})
+        json.dump(exp, open(ep, 'w'), indent=1)
     finally:
         subprocess.call(['git', '-C', '/repo', 'worktree', 'remove', '--force', wt], stdout=subprocess.DEVNULL, stderr=subprocess.DEVNULL)
         shutil.rmtree(wt, ignore_errors=True)
